@@ -149,13 +149,33 @@ func runFull(c Case) (out Outcome) {
 		}
 		return em, nil
 	}
-	inject := func(faceID int, wire []byte, tok []byte, nextHop int) {
+	// inject hands a packet to a face as the link would: bare, as one LpPacket, or -- split
+	// > 1 -- as that many NDNLPv2 fragments in order, each carrying the header fields (as
+	// this forwarder's own sender does), which the link service reassembles first.
+	seqs := make([]uint64, len(faces))
+	inject := func(faceID int, wire []byte, tok []byte, nextHop int, split int) {
 		lp := lpwire.LP{Fragment: wire, HasFragment: true}
 		if len(tok) > 0 {
 			lp.PitToken = tok
 		}
 		if nextHop != 0 {
 			lp.NextHopFaceId = lpwire.U64(uint64(nextHop))
+		}
+		if split > 1 && len(wire) >= split {
+			base := seqs[faceID-1]
+			seqs[faceID-1] += uint64(split)
+			step := len(wire) / split
+			for k := 0; k < split; k++ {
+				part := wire[k*step:]
+				if k < split-1 {
+					part = part[:step]
+				}
+				f := lp
+				f.Fragment = append([]byte{}, part...)
+				f.Seq, f.FragIndex, f.FragCount = lpwire.U64(base+uint64(k)), lpwire.U64(uint64(k)), lpwire.U64(uint64(split))
+				faces[faceID-1].ls.VerifHandleIncomingFrame(f.Encode())
+			}
+			return
 		}
 		frame := wire
 		if len(tok) > 0 || nextHop != 0 {
@@ -208,7 +228,7 @@ func runFull(c Case) (out Outcome) {
 		case "I":
 			wire := interestWire(op)
 			tok, _ := hex.DecodeString(op.Tok)
-			inject(op.F, wire, tok, op.NextHop)
+			inject(op.F, wire, tok, op.NextHop, op.Split)
 			synctest.Wait()
 			if op.HasNonce {
 				nonces++
@@ -231,7 +251,7 @@ func runFull(c Case) (out Outcome) {
 				m.tainted = "known finding: token-less Data and a prefix-matching PIT entry held by another forwarding thread"
 				break
 			}
-			inject(op.F, wire, tok, 0)
+			inject(op.F, wire, tok, 0, op.Split)
 			synctest.Wait()
 			em, v := collect()
 			if v != nil {
